@@ -276,16 +276,18 @@ func genDoc(r *vh.Rng) (string, *gnode, map[string]bool) {
 // "/0/2/@a:k" for an attribute; labels order nodes in document order and never mention
 // addresses or IDs.
 type docCtx struct {
-	text   string
-	xdoc   *xmlquery.Node
-	idoc   *idr.Node
-	xnodes []*xmlquery.Node // non-attribute nodes in document order
-	inodes []*idr.Node      // the corresponding idr nodes
-	paths  [][]int          // their DOM paths, root first
-	xlabel map[*xmlquery.Node]string
-	ilabel map[*idr.Node]string
-	nattr  int
-	allTxt string
+	text    string
+	pre     *poolPrelude
+	rootErr error
+	xdoc    *xmlquery.Node
+	idoc    *idr.Node
+	xnodes  []*xmlquery.Node // non-attribute nodes in document order
+	inodes  []*idr.Node      // the corresponding idr nodes
+	paths   [][]int          // their DOM paths, root first
+	xlabel  map[*xmlquery.Node]string
+	ilabel  map[*idr.Node]string
+	nattr   int
+	allTxt  string
 }
 
 func pathLabel(p []int) string {
@@ -329,7 +331,11 @@ func normaliseRef(doc *xmlquery.Node) (decls, chardata int) {
 	return
 }
 
-func parseBoth(text string) (*docCtx, error) {
+func parseBoth(text string, pre *poolPrelude) (*docCtx, error) {
+	// earlier document of this process: fills the node pool (see pool.go)
+	if err := pre.run(); err != nil {
+		return nil, err
+	}
 	xdoc, err := xmlquery.Parse(strings.NewReader(text))
 	if err != nil {
 		return nil, fmt.Errorf("xmlquery.Parse: %v", err)
@@ -343,7 +349,11 @@ func parseBoth(text string) (*docCtx, error) {
 	if err != nil {
 		return nil, fmt.Errorf("idr read: %v", err)
 	}
-	d := &docCtx{text: text, xdoc: xdoc, idoc: vh.Root(n), xlabel: map[*xmlquery.Node]string{}, ilabel: map[*idr.Node]string{}}
+	d := &docCtx{text: text, pre: pre, xdoc: xdoc, idoc: vh.Root(n), xlabel: map[*xmlquery.Node]string{}, ilabel: map[*idr.Node]string{}}
+	if err := rootLinks(d.idoc); err != nil {
+		// reported, and the comparisons go on: they see the same thing through the navigator
+		d.rootErr = &shapeErr{msg: err.Error(), probe: probeUnpaired(xdoc, d.idoc)}
+	}
 	if err := d.pair(xdoc, d.idoc, nil); err != nil {
 		return nil, &shapeErr{msg: err.Error(), probe: probeUnpaired(xdoc, d.idoc)}
 	}
@@ -368,6 +378,7 @@ type probeResult struct {
 
 var probes = []string{"count(//node())", "count(//text())", "count(//*)", "count(//@*)", "count(//*[not(node())])",
 	"count(//*[text()])", "count(//text()[.=''])", "count(//*[count(node())=1])", "count(//node()[last()][self::text()])",
+	"count(/following::node())", "count(/preceding::node())", "count(/following-sibling::node())", "count(/preceding-sibling::node())",
 	"string(//text()[1])", "string(//*[last()])", "string(/)", "string-length(/)", "count(//text()[normalize-space(.)=''])"}
 
 func probeUnpaired(xdoc *xmlquery.Node, idoc *idr.Node) *probeResult {
